@@ -276,4 +276,15 @@ def replay(v):
         V, _ = explore.step(real, model, explore.dec_op(c['op']), universe, ctr)
         return [common.violation(ID, x['clause'], c, x['expected'], x['observed']) for x in V]
     V = explore.replay_history(c['history'], c['op'], universe, c['ranks'])
+    if not V:
+        # the recorded history alone does not show it: the library may keep process-global
+        # state, so that a transition depends on transitions made on OTHER objects before it.
+        # Deterministic schedule for that: the whole search in one process, in fixed order.
+        r = explore.bfs(universe, pool_for(universe), c['ranks'], ID, serial=True)
+        out = []
+        for x in r['violations'][:1]:
+            case = dict(c, history=explore.history_of(r['seen'], x['parent']), op=x['op'],
+                        schedule='whole search, one process, fixed order')
+            out.append(common.violation(ID, x['clause'], case, x['expected'], x['observed']))
+        return out
     return [common.violation(ID, x['clause'], c, x['expected'], x['observed']) for x in V]
